@@ -548,6 +548,9 @@ func connFamily(seed uint64, tier string, args []string) {
 				}
 			}
 		}
+		// a call without an error result in flight at the fault / issued in the window
+		emit(scenFault(faultFIN, "idle", "plain", "plain", true, true))
+		emit(scenFault(faultRST, "mid-resp", "plain", "plain", true, false))
 		for _, k := range []faultKind{faultFIN, faultRST} {
 			emit(scenLoopEnds(k, false))
 		}
